@@ -13,6 +13,7 @@ import ReqVerif.Model.Frontends
 import ReqVerif.Model.Repos
 import ReqVerif.Model.Cache
 import ReqVerif.Model.SolutionText
+import ReqVerif.Model.Entry
 import ReqVerif.Model.BazelLoader
 import ReqVerif.Model.Patch
 import ReqVerif.Model.Vfs
@@ -338,6 +339,23 @@ def opLoadSolution (j : Json) : Json :=
     | some .emptySource => Json.str "ValueError"
     | none => Json.null)]
 
+/-! ### requirer entries (C06, C08) -/
+
+def showRead (r : Except Entry.Err Entry.Read) : Json :=
+  match r with
+  | .error _ => Json.mkObj [("error", "IndexError")]
+  | .ok d => Json.mkObj [("pkg", str d.pkg), ("act", match d.act with | some a => Json.str (str a) | none => Json.null),
+                         ("spec", str d.spec), ("extras", jsonStrs (d.extras.map str))]
+
+def opEntry (j : Json) : Json :=
+  let pinExtras := (jStrs j "pin_extras").map String.toList
+  match jOptStr j "text" with
+  | some t => Json.mkObj [("decoded", showRead (Entry.decode pinExtras t.toList))]
+  | none =>
+    let e : Entry.Asked := { name := jChars j "name", act := (jStrs j "act").map String.toList, spec := jChars j "spec",
+                             extras := (jStrs j "extras").map String.toList }
+    Json.mkObj [("rendered", str (Entry.render e)), ("decoded", showRead (Entry.decode pinExtras (Entry.render e)))]
+
 /-! ### Bazel lock loader (C19) -/
 
 def opLoadBazel (j : Json) : Json :=
@@ -450,6 +468,7 @@ def dispatch (op : String) (j : Json) : Json :=
   | "write-solution" => opWriteSolution j
   | "load-solution" => opLoadSolution j
   | "load-bazel" => opLoadBazel j
+  | "entry" => opEntry j
   | "patch-run" => opPatchRun j
   | "vfs" => opVfs j
   | "sort-keys" => jsonStrs ((Ord.sortAsc (fun (p : List Char) => Ord.lowerStr p) ((jStrs j "names").map String.toList)).map str)
